@@ -421,8 +421,11 @@ Lemma apply_single_changes (D : N -> N) base offset : forall (is : list N) v,
 Proof.
   induction is as [|i is IH]; intros v Hb Hin.
   - exists v. repeat split; reflexivity.
-  - unfold apply_changes in *. cbn [map fold_left fst snd rbind rok].
-    unfold usub at 2. replace (base <=? offset + i) with true by nbs. cbn [rbind rok].
+  - unfold apply_changes in *. cbn [map fold_left]. match goal with |- context [apply_step base (rok v) ?c] =>
+      change (apply_step base (rok v) c) with
+        (let? v0 := rok v in let? local := usub (fst c) base in
+         if local + lenN (snd c) <=? sv_len v0 then rok (sv_write v0 local (snd c)) else rerr HostPanic) end. cbn [fst snd rbind rok].
+    unfold usub. replace (base <=? offset + i) with true by nbs. cbn [rbind rok].
     unfold lenN; cbn [length].
     replace (offset + i - base + N.of_nat 1 <=? sv_len v) with true
       by (specialize (Hin i (or_introl eq_refl)); nbs).
@@ -477,16 +480,24 @@ Proof.
     specialize (Hlt i Hi). lia.
 Qed.
 
+Lemma apply_changes_app v base a b :
+  apply_changes v base (a ++ b) =
+  match apply_changes v base a with inl v1 => apply_changes v1 base b | inr e => inr e end.
+Proof.
+  unfold apply_changes. rewrite fold_left_app.
+  destruct (fold_left (apply_step base) a (rok v)) as [v1|e]; [reflexivity|].
+  induction b as [|c b IH]; [reflexivity | exact IH].
+Qed.
+
 Lemma rollback_refines m f m0 f0 :
   R m f -> R m0 f0 ->
-  (mhp m0 < mhp m \/ sv_len (stack m0) <= sv_len (stack m)) ->
   match collect_rollback_data m m0 with
   | inr e => e = HostPanic /\ hp f0 < hp f
   | inl None => R m f0 /\ ~ hp f0 < hp f
   | inl (Some d) => ~ hp f0 < hp f /\ exists m', rollback m d = inl m' /\ R m' f0
   end.
 Proof.
-  intros HR HR0 Hpre. unfold collect_rollback_data.
+  intros HR HR0. unfold collect_rollback_data.
   destruct (mem_eqb m m0) eqn:Heq.
   { pose proof HR as [HI _]. split; [eapply mem_eqb_sound; eassumption|].
     elim_R HR. elim_R HR0. unfold mem_eqb in Heq. apply andb_true_iff in Heq as [Heq _].
@@ -497,8 +508,6 @@ Proof.
   assert (Hoff0 : heap_offset m0 = MEM_SIZE - sv_len (heap m0)) by reflexivity.
   unfold rerr, rok. rewrite E2, F2.
   destruct (N.ltb_spec (mhp m0) (mhp m)); [split; [reflexivity | assumption]|].
-  destruct Hpre as [Hpre|Hpre]; [lia|].
-  replace (sv_len (stack m) <? sv_len (stack m0)) with false by nbs.
   unfold checked_sub. replace (heap_offset m <=? mhp m0) with true by nbs.
   replace (heap_offset m0 <=? mhp m0) with true by nbs.
   replace ((sv_len (heap m) <? mhp m0 - heap_offset m) || (sv_len (heap m0) <? mhp m0 - heap_offset m0))
@@ -508,13 +517,30 @@ Proof.
   split; [lia|].
   unfold rollback; cbn [rd_sp rd_hp rd_stack rd_heap].
   replace (mhp m0 <? mhp m) with false by nbs.
-  (* stack changes *)
-  destruct (apply_get_changes (stack m) 0 (stack m0) 0 (sv_len (stack m0)) 0
-              (sv_resize (stack m) (sv_len (stack m0))) 0) as [st' [A1 [B1 [C1 _]]]].
+  (* stack changes: the common prefix against the current stack, the missing tail against zeros *)
+  set (sp := sv_len (stack m0)). set (common := N.min sp (sv_len (stack m))).
+  rewrite apply_changes_app.
+  destruct (apply_get_changes (stack m) 0 (stack m0) 0 common 0 (sv_resize (stack m) sp) 0) as [st1 [A0 [B0 [C0 D0]]]].
   { lia. }
-  { rewrite sv_len_resize. lia. }
-  { intros i Hi. rewrite sv_get_resize. replace (0 - 0 + i <? sv_len (stack m0)) with true by nbs.
+  { rewrite sv_len_resize. unfold common. lia. }
+  { intros i Hi. rewrite sv_get_resize. replace (0 - 0 + i <? sp) with true by (unfold common in Hi; nbs).
     f_equal; lia. }
+  rewrite A0. rewrite sv_len_resize in B0.
+  destruct (apply_get_changes (sv_resize sv_empty (saturating_sub sp common)) 0 (stack m0) common (sp - common) common st1 0)
+    as [st' [A1 [B1' [C1' D1']]]].
+  { lia. }
+  { rewrite B0. unfold common. lia. }
+  { intros i Hi. rewrite sv_get_resize, sv_get_empty.
+    replace (sv_get st1 (common - 0 + i)) with 0; [destruct (0 + i <? saturating_sub sp common); reflexivity|].
+    rewrite D0 by (right; lia). rewrite sv_get_resize.
+    destruct (common - 0 + i <? sp); [|reflexivity]. symmetry. apply sv_get_beyond. unfold common in *. lia. }
+  assert (B1 : sv_len st' = sp) by congruence.
+  assert (C1 : forall i, i < sp -> sv_get st' (0 - 0 + i) = sv_get (stack m0) (0 + i)).
+  { intros i Hi. destruct (N.ltb_spec i common) as [Hlt|Hge].
+    - rewrite D1' by (left; lia). apply C0. exact Hlt.
+    - specialize (C1' (i - common) ltac:(lia)).
+      replace (common - 0 + (i - common)) with (0 - 0 + i) in C1' by lia.
+      replace (common + (i - common)) with (0 + i) in C1' by lia. exact C1'. }
   rewrite A1. cbn [rbind]. unfold saturating_sub. rewrite <- Hoff.
   (* heap changes *)
   destruct (apply_get_changes (heap m) (mhp m0 - heap_offset m) (heap m0) (mhp m0 - heap_offset m0)
@@ -523,7 +549,7 @@ Proof.
   { lia. }
   { intros i Hi. reflexivity. }
   rewrite A2. cbn [rbind rok]. eexists; split; [reflexivity|].
-  rewrite sv_len_resize in B1.
+  subst common. subst sp.
   apply R_intro; cbn [stack heap mhp]; try congruence.
   - unfold Inv; cbn [stack heap mhp]. rewrite B1, B2. lia.
   - rewrite B1. intros x Hx. specialize (C1 x Hx). rewrite !N.sub_diag, !N.add_0_l in C1. rewrite C1. apply FS; assumption.
@@ -541,11 +567,11 @@ Proof. intros H. split; [exact H|]. repeat split. Qed.
 Ltac fin := split; [split; cbn [fst snd]; assumption | try reflexivity].
 
 Theorem step_refines st sst op :
-  Rst st sst -> rollback_defined sst op ->
+  Rst st sst ->
   Rst (fst (step st op)) (fst (step_spec sst op)) /\
   snd (step_spec sst op) = denote_out (snd (step st op)).
 Proof.
-  destruct st as [m snap], sst as [f fsnap]. intros [HR HS] Hpre. cbn [fst snd] in HR, HS.
+  destruct st as [m snap], sst as [f fsnap]. intros [HR HS]. cbn [fst snd] in HR, HS.
   destruct op; cbn [step step_spec].
   - (* grow_stack *)
     pose proof (grow_stack_refines m f new_sp HR) as H.
@@ -585,10 +611,7 @@ Proof.
   - (* rollback *)
     destruct snap as [m0|], fsnap as [f0|]; cbn [Rsnap] in HS; try contradiction.
     2:{ cbn. fin. }
-    cbn [rollback_defined fst snd] in Hpre.
-    assert (Hpre' : mhp m0 < mhp m \/ sv_len (stack m0) <= sv_len (stack m)).
-    { pose proof HR as HRc. pose proof HS as HSc. elim_R HRc. elim_R HSc. lia. }
-    pose proof (rollback_refines m f m0 f0 HR HS Hpre') as H.
+    pose proof (rollback_refines m f m0 f0 HR HS) as H.
     destruct (collect_rollback_data m m0) as [[d|]|e].
     + destruct H as [Hn [m' [-> HR']]].
       replace (hp f0 <? hp f) with false by (symmetry; apply N.ltb_ge; lia).
@@ -602,16 +625,16 @@ Proof.
 Qed.
 
 Theorem run_refines ops : forall st sst,
-  Rst st sst -> hist_defined sst ops ->
+  Rst st sst ->
   Rst (fst (run st ops)) (fst (run_spec sst ops)) /\
   snd (run_spec sst ops) = map denote_out (snd (run st ops)).
 Proof.
-  induction ops as [|op r IH]; intros st sst HR Hd.
+  induction ops as [|op r IH]; intros st sst HR.
   - cbn. split; [assumption | reflexivity].
-  - destruct Hd as [Hd1 Hd2]. cbn [run run_spec].
-    destruct (step_refines st sst op HR Hd1) as [HR' Ho].
+  - cbn [run run_spec].
+    destruct (step_refines st sst op HR) as [HR' Ho].
     destruct (step st op) as [st' o]. destruct (step_spec sst op) as [sst' so]. cbn [fst snd] in *.
-    destruct (IH st' sst' HR' Hd2) as [HR'' Hos].
+    destruct (IH st' sst' HR') as [HR'' Hos].
     destruct (run st' r) as [st'' os]. destruct (run_spec sst' r) as [sst'' sos]. cbn [fst snd map] in *.
     split; [assumption|]. congruence.
 Qed.
@@ -620,7 +643,6 @@ Lemma Rst_init : Rst state_init sstate_init.
 Proof. split; [apply R_init | exact I]. Qed.
 
 Theorem run_refines_init ops :
-  hist_defined sstate_init ops ->
   Rst (fst (run state_init ops)) (fst (run_spec sstate_init ops)) /\
   snd (run_spec sstate_init ops) = map denote_out (snd (run state_init ops)).
 Proof. apply run_refines. apply Rst_init. Qed.
@@ -641,19 +663,7 @@ Qed.
 Theorem step_preserves_inv st op : InvSt st -> InvSt (fst (step st op)).
 Proof.
   intros HI. pose proof (InvSt_Rst st HI) as HR.
-  assert (Hdec : rollback_defined (abs (fst st), option_map abs (snd st)) op \/
-                 fst (step st op) = st).
-  { destruct op; try (left; exact I). destruct st as [m [m0|]]; [|left; exact I].
-    cbn [rollback_defined fst snd option_map abs hp stk_hi].
-    destruct (N.ltb_spec (mhp m0) (mhp m)); [left; left; assumption|].
-    destruct (N.leb_spec (sv_len (stack m0)) (sv_len (stack m))); [left; right; assumption|].
-    right. cbn [step]. unfold collect_rollback_data.
-    destruct (mem_eqb m m0) eqn:He; [reflexivity|].
-    replace (mhp m0 <? mhp m) with false by (symmetry; apply N.ltb_ge; assumption).
-    replace (sv_len (stack m) <? sv_len (stack m0)) with true by (symmetry; apply N.ltb_lt; assumption).
-    reflexivity. }
-  destruct Hdec as [Hd|Heq]; [|rewrite Heq; exact HI].
-  destruct (step_refines st _ op HR Hd) as [[[H1 _] H2] _].
+  destruct (step_refines st _ op HR) as [[[H1 _] H2] _].
   split; [exact H1|]. destruct (snd (fst (step st op))) as [m0'|]; [|exact I].
   destruct (snd (fst (step_spec (abs (fst st), option_map abs (snd st)) op))); [apply H2 | contradiction].
 Qed.
@@ -677,8 +687,7 @@ Theorem no_host_panic st op :
   InvSt st -> op <> SRollback -> snd (step st op) <> OErr HostPanic.
 Proof.
   intros HI Hop. pose proof (InvSt_Rst st HI) as HR.
-  assert (Hd : rollback_defined (abs (fst st), option_map abs (snd st)) op) by (destruct op; try exact I; congruence).
-  destruct (step_refines st _ op HR Hd) as [_ Ho]. intros Hc. rewrite Hc in Ho. cbn [denote_out] in Ho.
+  destruct (step_refines st _ op HR) as [_ Ho]. intros Hc. rewrite Hc in Ho. cbn [denote_out] in Ho.
   destruct st as [m snap]. cbn [fst snd option_map] in Ho.
   destruct op; cbn [step_spec] in Ho; try congruence; try (cbn [snd] in Ho; discriminate).
   - destruct (MEM_SIZE <? new_sp); [discriminate|]. destruct (new_sp <=? stk_hi (abs m)); [discriminate|].
@@ -731,12 +740,12 @@ Qed.
 
 (* rollback restores the snapshot's accessible contents *)
 Theorem rollback_restores m m0 d m' :
-  Inv m -> Inv m0 -> sv_len (stack m0) <= sv_len (stack m) ->
+  Inv m -> Inv m0 ->
   collect_rollback_data m m0 = inl (Some d) -> rollback m d = inl m' ->
   flat_obs_eq (abs m') (abs m0).
 Proof.
-  intros HI HI0 Hs Hc Hr.
-  pose proof (rollback_refines m (abs m) m0 (abs m0) (R_abs m HI) (R_abs m0 HI0) (or_intror Hs)) as H.
+  intros HI HI0 Hc Hr.
+  pose proof (rollback_refines m (abs m) m0 (abs m0) (R_abs m HI) (R_abs m0 HI0)) as H.
   rewrite Hc in H. destruct H as [_ [m'' [Hr' HR]]]. assert (m'' = m') by congruence. subst. apply HR.
 Qed.
 
@@ -746,33 +755,44 @@ Proof.
   intros HI HI0 Hc. unfold collect_rollback_data in Hc.
   destruct (mem_eqb m m0) eqn:He.
   - apply (mem_eqb_sound m m0 (abs m0) HI He (R_abs m0 HI0)).
-  - destruct (mhp m0 <? mhp m); [discriminate|]. destruct (sv_len (stack m) <? sv_len (stack m0)); [discriminate|].
+  - destruct (mhp m0 <? mhp m); [discriminate|].
     destruct (checked_sub (mhp m0) (heap_offset m)); [|discriminate].
     destruct (checked_sub (mhp m0) (heap_offset m0)); [|discriminate].
     destruct ((sv_len (heap m) <? n) || (sv_len (heap m0) <? n0)); discriminate.
 Qed.
 
-(* ---------------------------------------------------------------- the side condition is needed *)
-Lemma witness_model_panics :
-  snd (run state_init witness_history) = [OUnit; OUnit; OUnit; OUnit; OErr HostPanic].
-Proof. vm_compute. reflexivity. Qed.
-
-Lemma witness_spec_restores :
-  snd (run_spec sstate_init witness_history) = [SUnit; SUnit; SUnit; SUnit; SUnit].
-Proof. vm_compute. reflexivity. Qed.
-
-Theorem refines_all_histories_refuted : ~ refines_all_histories.
+(* ---------------------------------------------------------------- the documented precondition *)
+(* rollback still has ONE precondition, stated in the code as an assertion: the snapshot's heap
+   pointer must not be below the current one ("we only allow shrinking of the heap during
+   rollback").  The specification has the same rule (SRollback returns HostPanic), so the
+   refinement needs no side condition; these two lemmas spell the rule out. *)
+Theorem rollback_heap_precondition m m0 :
+  mhp m0 < mhp m -> collect_rollback_data m m0 = inr HostPanic.
 Proof.
-  intros H. specialize (H witness_history).
-  rewrite witness_model_panics, witness_spec_restores in H. discriminate.
+  intros H. unfold collect_rollback_data.
+  assert (He : mem_eqb m m0 = false).
+  { unfold mem_eqb. destruct (N.eqb_spec (mhp m) (mhp m0)); [lia|]. rewrite andb_false_r. reflexivity. }
+  rewrite He. replace (mhp m0 <? mhp m) with true by (symmetry; apply N.ltb_lt; exact H). reflexivity.
 Qed.
 
-(* the side condition is satisfiable by a history that does roll back *)
-Example hist_defined_example :
-  hist_defined sstate_init
-    [SGrowStack 100; SGrowHeap 100 50; SWrite 10 [1; 2; 3]; SSnapshot; SWrite 11 [9; 9];
-     SGrowStack 300; SGrowHeap 300 1000; SRollback; SRead 0 100].
+Theorem rollback_never_panics_otherwise m m0 :
+  Inv m -> Inv m0 -> mhp m <= mhp m0 ->
+  match collect_rollback_data m m0 with
+  | inr _ => False
+  | inl None => True
+  | inl (Some d) => exists m', rollback m d = inl m'
+  end.
 Proof.
-  cbn [hist_defined rollback_defined]. repeat split; try exact I.
-  cbn. right. unfold MEM_SIZE. vm_compute. discriminate.
+  intros HI HI0 Hh. pose proof (rollback_refines m (abs m) m0 (abs m0) (R_abs m HI) (R_abs m0 HI0)) as H.
+  cbn [abs hp] in H. destruct (collect_rollback_data m m0) as [[d|]|e].
+  - destruct H as [_ [m' [Hr _]]]. eauto.
+  - exact I.
+  - destruct H as [_ Hlt]. lia.
 Qed.
+
+(* the regression witness of 75e7afe now restores the snapshot *)
+Lemma witness_history_restores :
+  map denote_out (snd (run state_init witness_history)) =
+  [SUnit; SUnit; SUnit; SUnit; SUnit; SBytes [0; 0; 1; 2; 3; 0]] /\
+  snd (run_spec sstate_init witness_history) = map denote_out (snd (run state_init witness_history)).
+Proof. split; [vm_compute; reflexivity | apply run_refines_init]. Qed.
